@@ -106,6 +106,9 @@ func Gate(fn *ssa.Function, effects []ssa.Instruction, pass ...Lit) GateResult {
 	for _, e := range effects {
 		target[e.Block()] = true
 	}
+	for e := range FlagCuts(fn, effects) {
+		cut[e] = true
+	}
 	path := ReachAvoiding(fn, fn.Blocks[0], target, cut)
 	res.OK = path == nil
 	res.Path = path
@@ -415,4 +418,68 @@ func CutEdges(fn *ssa.Function, lits ...Lit) (map[Edge]bool, []int) {
 		}
 	}
 	return cut, per
+}
+
+// FlagCuts eliminates paths that are infeasible because of the "validity flag" idiom:
+//
+//	ok := true; if bad1 { ok = false }; if bad2 { ok = false }; if !ok { return }; effect
+//
+// go/ssa turns ok into a phi of boolean constants. When every effect is dominated by the
+// edge asserting phi==true (resp. false) of an If on that phi, no feasible path to an
+// effect enters the phi through an edge carrying the constant false (resp. true); those
+// CFG edges are returned so that a path-insensitive search does not take them.
+func FlagCuts(fn *ssa.Function, effects []ssa.Instruction) map[Edge]bool {
+	out := map[Edge]bool{}
+	for _, b := range fn.Blocks {
+		if len(b.Instrs) == 0 {
+			continue
+		}
+		iff, ok := b.Instrs[len(b.Instrs)-1].(*ssa.If)
+		if !ok {
+			continue
+		}
+		cond, neg := StripNot(iff.Cond)
+		phi, ok := cond.(*ssa.Phi)
+		if !ok {
+			continue
+		}
+		for _, want := range []bool{true, false} {
+			// successor taken when phi == want
+			idx := 0
+			if want == neg { // cond true means phi true unless negated
+				idx = 1
+			}
+			to := b.Succs[idx]
+			if len(to.Preds) != 1 { // the edge must be the only way into its target
+				continue
+			}
+			all := len(effects) > 0
+			for _, e := range effects {
+				if !(to == e.Block() || to.Dominates(e.Block())) {
+					all = false
+				}
+			}
+			if !all {
+				continue
+			}
+			seen := map[*ssa.Phi]bool{}
+			var walk func(ph *ssa.Phi)
+			walk = func(ph *ssa.Phi) {
+				if seen[ph] {
+					return
+				}
+				seen[ph] = true
+				for i, e := range ph.Edges {
+					if c, isC := ConstBool(e); isC && c != want {
+						out[Edge{ph.Block().Preds[i], ph.Block()}] = true
+					}
+					if p2, isP := Strip(e).(*ssa.Phi); isP {
+						walk(p2)
+					}
+				}
+			}
+			walk(phi)
+		}
+	}
+	return out
 }
